@@ -14,6 +14,9 @@ pub enum Seg {
     Tiny { n: u16, hint: Hint, seed: u32 },
     /// `n` contents of more than half a cluster: each gets a compressed cluster of its own
     Big { n: u8, extra: u16, hint: Hint, seed: u32 },
+    /// `clusters` x 4095 contents of length 0: clusters that hold no byte at all
+    #[serde(alias = "Empty")]
+    Empties { clusters: u8, hint: Hint },
 }
 
 #[derive(Serialize, Deserialize, Clone, Copy, Debug, PartialEq, Eq, Hash)]
@@ -177,6 +180,11 @@ pub fn expand(segs: &[Seg]) -> Vec<(Vec<u8>, Hint)> {
                     out.push((content_bytes(seed.wrapping_add(i), len, Entropy::Text), *hint));
                 }
             }
+            Seg::Empties { clusters, hint } => {
+                for _ in 0..*clusters as u32 * 4095 {
+                    out.push((vec![], *hint));
+                }
+            }
             Seg::Big { n, extra, hint, seed } => {
                 for i in 0..*n as u32 {
                     let len = (2usize << 20) + 4096 + *extra as usize * 32 + i as usize;
@@ -215,6 +223,7 @@ impl Property for C08 {
         let seg = prop_oneof![
             5 => (prop_oneof![2 => Just(4095u16), 2 => 4000u16..4200, 2 => 8190u16..8300, 1 => 1u16..300, 1 => 12285u16..12400], hint_yes_no(), any::<u32>()).prop_map(|(n, hint, seed)| Seg::Tiny { n, hint, seed }),
             2 => (1u8..=3, any::<u16>(), any::<u32>()).prop_map(|(n, extra, seed)| Seg::Big { n, extra, hint: Hint::Yes, seed }),
+            1 => (prop_oneof![3 => 1u8..=3, 1 => 3u8..=6], hint_yes_no()).prop_map(|(clusters, hint)| Seg::Empties { clusters, hint }),
         ];
         let plan = (
             prop_oneof![
@@ -257,6 +266,7 @@ impl Property for C08 {
                 at += match sg {
                     Seg::Tiny { n, .. } => *n as usize,
                     Seg::Big { n, .. } => *n as usize,
+                    Seg::Empties { clusters, .. } => *clusters as usize * 4095,
                 };
             }
             v
@@ -375,6 +385,7 @@ impl Property for C08 {
             .map(|s| match s {
                 Seg::Tiny { n, hint, .. } => format!("t{}{:?}", n / 4095, hint),
                 Seg::Big { n, .. } => format!("b{n}"),
+                Seg::Empties { clusters, hint } => format!("e{clusters}{hint:?}"),
             })
             .collect();
         info.key = hash_str(&format!("{:?}|{shape:?}|{}", case.comp, distinct.len()));
